@@ -423,7 +423,7 @@ package lnwallet
 //@   nopanic
 //@
 //@ func (lc *LightningChannel) localLogUpdateToPayDesc
-//@   props C03 C02
+//@   props C03 C02 C01
 //@   bounds-safe
 //@   requires logUpdate != nil
 //@   let m = logUpdate.UpdateMsg
@@ -991,3 +991,24 @@ package lnwallet
 //@   site store paymentDescriptor.Amount nth 3: assert value == ret(lookupHtlc, 2).Amount
 //@   site store paymentDescriptor.Amount nth 4: assert value == ret(NewMSatFromSatoshis)
 //@   site call NewMSatFromSatoshis: assert arg(0) == dynptr(m, *lnwire.UpdateFee).FeePerKw
+//@
+//@ // ---- which log entries are written down at a revocation / a signature as "still to be signed by the other side": exactly those
+//@ // ---- that are on one commitment and not yet on the other (half-open index windows; round-5 seeded change C01-15 widened one by one)
+//@ func (lc *LightningChannel) unsignedLocalUpdates
+//@   props C01 C02 C03
+//@   loop * havoc
+//@   let inWindow = pd.EntryType != Add && pd.EntryType != NoOpAdd && localMessageIndex <= pd.LogIndex && pd.LogIndex < remoteMessageIndex
+//@   loop 0 step len(localPeerUpdates) == prev(len(localPeerUpdates)) + ite(inWindow, 1, 0)
+//@   site call toLogUpdate: assert arg(0) == pd && inWindow
+//@
+//@ func (lc *LightningChannel) getUnsignedAckedUpdates
+//@   props C01 C02 C03
+//@   loop * havoc
+//@   site call tail nth 0: assert arg(0) == lc.commitChains.Remote
+//@   site call tail nth 1: assert arg(0) == lc.commitChains.Local
+//@   let acked = ret(tail, 0).messageIndices.Remote <= pd.LogIndex && pd.LogIndex < ret(tail, 1).messageIndices.Remote
+//@   loop 0 step len(logUpdates) == prev(len(logUpdates)) + ite(acked, 1, 0)
+//@   site call toLogUpdate: assert arg(0) == pd && acked
+//@
+//@ func (pd *paymentDescriptor) isAdd
+//@   inline
